@@ -109,7 +109,12 @@ def classify_missing(S, rnd):
             sfs_eval.linearizations(S, rnd, limit=1, n_random=0)
         except sfs_eval.SpecError:
             return "none at all: cyclic ordering constraints", None
-        return "none even with 4 more instructions and 4 more stack slots", None
+        try:
+            q = sfs_eval.synthesize(S, max(b, 0) + 12, mh + 6, node_budget=3000000)
+        except sfs_eval.Budget:
+            return "unknown (budget)", None
+        if q is None:
+            return "none even with 12 more instructions and 6 more stack slots", None
     try:
         q2 = sfs_eval.synthesize(S, b, mh + 4, node_budget=3000000)
     except sfs_eval.Budget:
@@ -170,6 +175,15 @@ def check_spec(key, S, seg_pairs, seg_tokens, rnd, viols, opts, small_bound, bud
             if why.startswith("unknown"):
                 _count("violation_unclassified_budget")
                 return
+            # mechanism hint: an operation with >= 2 operands whose result is never used is dropped from the
+            # specification, so the spec needs one POP per operand where the block had a single instruction
+            import collections
+            seg_ops = collections.Counter(n for n, _ in seg_pairs if n in evm.ARITY and evm.ARITY[n][0] >= 2
+                                          and evm.ARITY[n][1] == 1 and not n.startswith(("DUP", "SWAP")))
+            spec_ops = collections.Counter(i["disasm"] for i in S["user_instrs"])
+            dead = sorted(n for n in seg_ops if seg_ops[n] > spec_ops.get(n, 0))
+            if dead and rules == "-" and why.startswith("init_progr_len"):
+                rules = "- (dead multi-operand operation dropped from the specification)"
             viols.append({"fingerprint": "no realizing sequence within the published bounds: %s rules=%s" % (
                 why.split(" (")[0] if why.startswith("init_progr_len") else why, rules),
                 "witness": {"key": key, "segment": evm.to_plain_string(seg_pairs), "init_progr_len": b, "max_sk_sz": mh,
